@@ -1,6 +1,669 @@
 package checks
 
+import "strings"
+
 // Family group "Func" of C26 (see C26_FAMILY_BRIEF.md). Emits programs through
 // emit(desc, src); desc starts with the family name and a dash.
+//
+// Six families, each a cross product of small dimensions; bash decides what
+// every program prints and exits with:
+//
+//	fxret      `return` status spelling x the construct it is executed in
+//	             (inside a function) x how the caller consumes the status
+//	fxscope    how the caller declares x  x  what the callee does to x,
+//	             read from callee, callee's subshell and $( ), caller, top level
+//	fxpos      argument lists x one operation on the positional parameters
+//	             inside a function, the caller's parameters printed afterwards
+//	fxerrexit  set -e x the position of a failing command x the wrapper the
+//	             whole thing runs in, markers before and after
+//	fxexittrap where/how the EXIT trap is set x handler body x how the shell ends
+//	fxerrtrap  ERR trap x the position of a failing command x set -e / -E
+//
+// Spelling rules (see the brief): output with `echo "..."` only, never a first
+// argument starting with `-` or holding `\` or `%`; no bare `local x`.
+
+const c26FuncSt = "st() { return $1; }\n"
+
+type c26FuncNS struct{ name, src string }
+
+func c26FuncSub(tmpl, key, val string) string { return strings.ReplaceAll(tmpl, key, val) }
+
 func c26GenFunc(thorough bool, emit c26EmitFn) {
+	c26FuncRet(thorough, emit)
+	c26FuncScope(thorough, emit)
+	c26FuncPos(thorough, emit)
+	c26FuncErrexit(thorough, emit)
+	c26FuncExitTrap(thorough, emit)
+	c26FuncErrTrap(thorough, emit)
+}
+
+// ---------------------------------------------------------------- return
+
+func c26FuncRet(thorough bool, emit c26EmitFn) {
+	// the return command; "%P" is a command that sets the status first
+	rets := []c26FuncNS{
+		{"none", "return"},
+		{"0", "return 0"},
+		{"3", "return 3"},
+		{"$?", "return $?"},
+	}
+	if thorough {
+		rets = append(rets,
+			c26FuncNS{"256", "return 256"},
+			c26FuncNS{"259", "return 259"},
+			c26FuncNS{"var", "return $r"},
+			c26FuncNS{"quoted", "return \"3\""},
+			c26FuncNS{"arith", "return $((1+1))"},
+		)
+	}
+	// the construct around it, inside f; %R = the return command
+	places := []c26FuncNS{
+		{"plain", "%R"},
+		{"for", "for i in 1 2; do echo i$i; %R; echo no-for; done"},
+		{"while", "while true; do %R; echo no-while; done"},
+		{"if-cond", "if %R; then echo T; else echo F; fi"},
+		{"if-body", "if true; then %R; fi"},
+		{"group", "{ %R; echo no-group; }"},
+		{"and", "st 0 && %R"},
+		{"or", "st 2 || %R"},
+		{"case", "case a in a) %R;; esac"},
+		{"eval", "eval '%R; echo no-eval'"},
+		{"nested-fn", "g() { %R; echo no-g; }; g; echo \"g:$?\""},
+		{"subshell", "( %R; echo no-sub ); echo \"sub:$?\""},
+		{"cmdsubst", "x=$( %R; echo no-cs ); echo \"cs:$? [$x]\""},
+	}
+	if thorough {
+		places = append(places,
+			c26FuncNS{"until-cond", "until %R; do echo body; break; done"},
+			c26FuncNS{"while-cond", "while %R; do echo body; break; done"},
+			c26FuncNS{"for-nested", "for i in 1 2; do for j in a b; do echo $i$j; %R; done; echo no-outer; done"},
+			c26FuncNS{"elif-cond", "if st 1; then echo T1; elif %R; then echo T2; fi"},
+			c26FuncNS{"else-body", "if st 1; then echo T1; else %R; fi"},
+			c26FuncNS{"redir", "%R > r.txt"},
+			c26FuncNS{"group-redir", "{ %R; } > r.txt"},
+			c26FuncNS{"pipe-first", "%R | true; echo \"p:$?\""},
+			c26FuncNS{"pipe-first-pf", "set -o pipefail; %R | true; echo \"p:$?\""},
+			c26FuncNS{"bg", "%R & wait $!; echo \"bg:$?\""},
+			c26FuncNS{"and-chain", "st 0 && %R && echo no-chain"},
+			c26FuncNS{"or-chain", "st 2 || %R || echo no-chain"},
+			c26FuncNS{"cstyle", "for ((i=0; i<2; i++)); do %R; done"},
+			c26FuncNS{"dbl-eval", "eval \"eval '%R'\"; echo no-eval"},
+			c26FuncNS{"nested-fn-twice", "g() { %R; }; g; g; echo \"g:$?\""},
+			c26FuncNS{"negated", "! %R"},
+			c26FuncNS{"pipe-last", "true | %R"},
+		)
+	}
+	callers := []c26FuncNS{
+		{"plain", "f; echo \"c1:$?\""},
+		{"andor", "f && echo \"c2T:$?\" || echo \"c2F:$?\""},
+		{"if", "if f; then echo \"c3T:$?\"; else echo \"c3F:$?\"; fi"},
+		{"cmdsubst", "y=$(f); echo \"c4:$? [$y]\""},
+		{"loop", "for k in 1 2; do f; echo \"c5.$k:$?\"; done"},
+		{"negated", "! f; echo \"c6:$?\""},
+		{"subshell", "( f; echo \"c7in:$?\" ); echo \"c7:$?\""},
+		{"last", "f"}, // the program's status is f's
+	}
+	packed := ""
+	for _, c := range callers {
+		packed += c.src + "\n"
+	}
+	packed = strings.TrimSuffix(packed, "\n")
+	for _, r := range rets {
+		for _, p := range places {
+			body := "echo in; st 4; " + c26FuncSub(p.src, "%R", r.src) + "; echo \"after:$?\""
+			pre := c26FuncSt + "r=5\nf() { " + body + "; }\n"
+			emit("fxret-place["+r.name+" "+p.name+" callers=all]", pre+packed+"\n")
+			if thorough && (r.name == "none" || r.name == "3") {
+				for _, c := range callers {
+					emit("fxret-place["+r.name+" "+p.name+" caller="+c.name+"]", pre+c.src+"\n")
+				}
+			}
+		}
+	}
+	// outside a function (bash: an error, status 2 in 5.2, the script goes on)
+	tops := []c26FuncNS{
+		{"plain", "%R"},
+		{"subshell", "( %R; echo \"in:$?\" )"},
+		{"group", "{ %R; echo \"in:$?\"; }"},
+	}
+	for _, t := range tops {
+		rs := rets[2:3]
+		if thorough {
+			rs = rets
+		}
+		for _, r := range rs {
+			emit("fxret-toplevel["+r.name+" "+t.name+"]", c26FuncSt+"r=5\nst 4; "+c26FuncSub(t.src, "%R", r.src)+"; echo \"after:$?\"\n")
+		}
+	}
+}
+
+// ---------------------------------------------------------------- scope
+
+func c26FuncScope(thorough bool, emit c26EmitFn) {
+	type decl struct{ name, src, call string }
+	decls := []decl{
+		{"none", ":", "callee"},
+		{"local", "local x=C", "callee"},
+		{"local-self", "local x=\"${x-U}c\"", "callee"},
+		{"declare", "declare x=C", "callee"},
+		{"declare-g", "declare -g x=C", "callee"},
+		{"assign", "x=C", "callee"},
+		{"local-unset", "local x=C; unset x", "callee"},
+		{"tempenv", ":", "x=T callee"},
+	}
+	if thorough {
+		decls = append(decls,
+			decl{"export", "export x=C", "callee"},
+			decl{"local-export", "local -x x=C", "callee"},
+			decl{"local-tempenv", "local x=C", "x=T callee"},
+			decl{"local-two", "local x=C x=D", "callee"},
+			decl{"local-append", "local x=C; x+=c", "callee"},
+			decl{"local-in-sub", "( local x=S; show rs ); :", "callee"},
+			decl{"typeset", "typeset x=C", "callee"},
+			decl{"local-readonly", "local -r x=C", "callee"},
+		)
+	}
+	acts := []c26FuncNS{
+		{"read", ":"},
+		{"assign", "x=K"},
+		{"append", "x+=K"},
+		{"local", "local x=K"},
+		{"local-self", "local x=\"${x-U}k\""},
+		{"unset", "unset x"},
+		{"local-unset", "local x=K; unset x"},
+	}
+	if thorough {
+		acts = append(acts,
+			c26FuncNS{"unset-twice", "unset x; unset x"},
+			c26FuncNS{"unset-v", "unset -v x"},
+			c26FuncNS{"unset-assign", "unset x; x=K"},
+			c26FuncNS{"declare-g", "declare -g x=K"},
+			c26FuncNS{"declare", "declare x=K"},
+			c26FuncNS{"export", "export x=K"},
+			c26FuncNS{"local-then-g", "local x=K; declare -g x=GG"},
+			c26FuncNS{"third-fn-assign", "local x=K; h() { x=H; }; h"},
+			c26FuncNS{"third-fn-unset", "local x=K; h() { unset x; }; h"},
+			c26FuncNS{"third-fn-local", "h() { local x=H; show h; }; h"},
+			c26FuncNS{"local-r", "local -r x=K"},
+			c26FuncNS{"read-builtin", "read x <<< K"},
+			c26FuncNS{"for-var", "for x in K; do :; done"},
+			c26FuncNS{"sub-assign", "( x=K; show e-in )"},
+			c26FuncNS{"tempenv-self", "x=K show e-t"},
+			c26FuncNS{"local-empty", "local x="},
+		)
+	}
+	inits := []c26FuncNS{{"set", "x=G\n"}}
+	if thorough {
+		inits = append(inits, c26FuncNS{"unset", ""})
+	}
+	for _, in := range inits {
+		for _, d := range decls {
+			for _, a := range acts {
+				if !c26FuncScopeKeep(d.name, a.name) {
+					continue
+				}
+				src := "show() { echo \"$1:${x-U}\"; }\n" + in.src +
+					"callee() { show e0; " + a.src + "; show e1; ( show e-sub ); y=$(show e-cs); echo \"$y\"; }\n" +
+					"caller() { " + d.src + "; show r0; " + d.call + "; show r1; }\n" +
+					"caller; show top\n"
+				emit("fxscope-var[global="+in.name+" caller="+d.name+" callee="+a.name+"]", src)
+			}
+		}
+	}
+}
+
+// c26FuncScopeKeep leaves out combinations that only repeat a recorded defect
+// or are error paths: `declare -g` while a function in the call chain has a
+// local of that name assigns that local (recorded once: caller=local
+// callee=declare-g, caller=none callee=local-then-g); a variable of the
+// temporary environment of a function call (`x=T callee`) is not a scope of
+// its own (recorded once: caller=tempenv callee=unset; bash also copies an
+// export/readonly of such a variable to the global scope); assigning or
+// shadowing a readonly local is an error that ends the script in bash.
+func c26FuncScopeKeep(decl, act string) bool {
+	switch act {
+	case "declare-g":
+		return decl == "none" || decl == "assign" || decl == "local"
+	case "local-then-g":
+		return decl == "none"
+	}
+	switch decl {
+	case "tempenv":
+		switch act {
+		case "read", "assign", "append", "local", "local-self", "unset":
+			return true
+		}
+		return false
+	case "local-tempenv":
+		switch act {
+		case "read", "assign", "append", "local", "local-self":
+			return true
+		}
+		return false
+	case "local-readonly":
+		return act == "read"
+	}
+	return true
+}
+
+// ---------------------------------------------------------------- positional parameters
+
+func c26FuncPos(thorough bool, emit c26EmitFn) {
+	args := []c26FuncNS{
+		{"none", ""},
+		{"one", "a"},
+		{"three", "a b c"},
+		{"spaced", "\"a b\" c"},
+	}
+	if thorough {
+		args = append(args,
+			c26FuncNS{"empty-first", "\"\" x"},
+			c26FuncNS{"empty-mid", "a \"\" b"},
+			c26FuncNS{"only-empty", "\"\""},
+			c26FuncNS{"ten", "1 2 3 4 5 6 7 8 9 t e"},
+		)
+	}
+	ops := []c26FuncNS{
+		{"none", ":"},
+		{"shift", "shift"},
+		{"shift-2", "shift 2"},
+		{"shift-5", "shift 5"},
+		{"set-z", "set -- z"},
+		{"set-empty", "set --"},
+		{"pass-at", "g \"$@\""},
+		{"pass-star", "g \"$*\""},
+		{"pass-bare", "g $@"},
+	}
+	if thorough {
+		ops = append(ops,
+			c26FuncNS{"shift-0", "shift 0"},
+			c26FuncNS{"shift-n", "shift $#"},
+			c26FuncNS{"set-append", "set -- \"$@\" q"},
+			c26FuncNS{"set-no-dashes", "set y z"},
+			c26FuncNS{"pass-affix", "g \"x$@y\""},
+			c26FuncNS{"pass-slice", "g \"${@:2}\""},
+			c26FuncNS{"pass-slice-len", "g \"${@:1:1}\""},
+			c26FuncNS{"pass-twice", "g \"$@\" \"$@\""},
+			c26FuncNS{"pass-bare-star", "g $*"},
+			c26FuncNS{"pass-ifs", "IFS=:; g \"$*\"; g $*; unset IFS"},
+			c26FuncNS{"in-subshell", "( shift; echo \"sub:$#\" )"},
+			c26FuncNS{"in-cmdsubst", "y=$(shift; echo \"cs:$#\"); echo \"$y\""},
+			c26FuncNS{"nested-set", "h() { set -- hh; }; h r"},
+			c26FuncNS{"count-10", "echo \"[${10-U}] [$10]\""},
+			c26FuncNS{"last", "echo \"[${!#}]\""},
+			c26FuncNS{"assign-at", "v=\"$@\"; echo \"[$v]\"; v=$*; echo \"[$v]\""},
+			c26FuncNS{"for-default", "for a; do echo \"d<$a>\"; done"},
+		)
+	}
+	const view = "echo \"n=$# 1=[${1-U}] 2=[${2-U}] *=[$*]\"; for a in \"$@\"; do echo \"<$a>\"; done"
+	keep := func(a, o string) bool {
+		switch o {
+		case "pass-affix": // "x$@y" is joined into one field (recorded): one program
+			return a == "one" || a == "three"
+		case "pass-ifs": // empty fields under a non-default IFS: C22/C23
+			return !strings.Contains(a, "empty")
+		case "last": // ${!#} with no parameters is $0
+			return a != "none"
+		}
+		return true
+	}
+	for _, a := range args {
+		for _, o := range ops {
+			if !keep(a.name, o.name) {
+				continue
+			}
+			src := "g() { echo \"g:$#\"; for a in \"$@\"; do echo \"g<$a>\"; done; }\n" +
+				"f() { " + view + "; " + o.src + "; echo \"op:$?\"; " + view + "; }\n" +
+				"set -- P Q\nf " + a.src + "\necho \"top:$# [$*]\"\n"
+			emit("fxpos-fn[args="+a.name+" op="+o.name+"]", src)
+		}
+	}
+	if thorough {
+		// the same operations at top level (no function)
+		for _, a := range args {
+			for _, o := range ops {
+				if !keep(a.name, o.name) || o.name == "pass-affix" {
+					continue
+				}
+				src := "g() { echo \"g:$#\"; for a in \"$@\"; do echo \"g<$a>\"; done; }\n" +
+					"set -- " + a.src + "\n" + view + "\n" + o.src + "; echo \"op:$?\"\n" + view + "\n"
+				emit("fxpos-top[args="+a.name+" op="+o.name+"]", src)
+			}
+		}
+	}
+}
+
+// ---------------------------------------------------------------- errexit
+
+// c26FuncFailPos: the positions of a failing command; %F = the failing command.
+func c26FuncFailPos(thorough bool) []c26FuncNS {
+	pos := []c26FuncNS{
+		{"plain", "%F"},
+		{"and-left", "%F && echo no-and"},
+		{"or-left", "%F || echo alt"},
+		{"and-last", "st 0 && %F"},
+		{"or-last", "st 4 || %F"},
+		{"if-cond", "if %F; then echo T; fi"},
+		{"if-body", "if true; then %F; fi"},
+		{"while-cond", "while %F; do echo no-while; done"},
+		{"until-cond", "until %F; do echo body; break; done"},
+		{"not", "! %F"},
+		{"not-true", "! st 0"},
+		{"group", "{ %F; echo ing; }"},
+		{"group-or", "{ %F; echo ing; } || echo alt"},
+		{"for-body", "for i in 1 2; do %F; echo i$i; done"},
+		{"case-body", "case a in a) %F;; esac"},
+		{"fn-plain", "f() { %F; echo inf; }; f"},
+		{"fn-last", "f() { echo inf; %F; }; f"},
+		{"fn-cond", "f() { %F; echo inf; }; if f; then echo T; fi"},
+		{"fn-or", "f() { %F; echo inf; }; f || echo alt"},
+		{"fn-and", "f() { %F; echo inf; }; f && echo T"},
+		{"subshell", "( %F; echo insub )"},
+		{"subshell-or", "( %F; echo insub ) || echo alt"},
+		{"cs-assign", "x=$(%F; echo a); echo \"x=$x\""},
+		{"cs-assign-last", "x=$(echo a; %F); echo \"x=$x\""},
+		{"local-cs", "f() { local x=$(%F); echo \"inf:$?\"; }; f"},
+		{"local-then-cs", "f() { local x=1; x=$(%F); echo \"inf:$?\"; }; f"},
+		{"pipe-first", "%F | true"},
+		{"pipe-last", "true | %F"},
+		{"pipe-first-pf", "set -o pipefail; %F | true"},
+		{"eval", "eval '%F; echo ineval'"},
+	}
+	if thorough {
+		pos = append(pos,
+			c26FuncNS{"and-mid", "st 0 && %F && echo no-and"},
+			c26FuncNS{"or-and", "%F || st 5 && echo no"},
+			c26FuncNS{"and-or-last", "st 0 && %F || st 6"},
+			c26FuncNS{"elif-cond", "if st 1; then echo T1; elif %F; then echo T2; fi"},
+			c26FuncNS{"else-body", "if st 1; then echo T1; else %F; fi"},
+			c26FuncNS{"while-body", "while true; do %F; echo inw; break; done"},
+			c26FuncNS{"not-group", "! { %F; echo ing; }"},
+			c26FuncNS{"fn-not", "f() { %F; echo inf; }; ! f"},
+			c26FuncNS{"fn-return", "f() { return 3; }; f"},
+			c26FuncNS{"fn-in-fn-cond", "f() { %F; echo inf; }; h() { f; echo inh; }; if h; then echo T; fi"},
+			c26FuncNS{"fn-while-cond", "f() { %F; echo inf; }; while f; do break; done"},
+			c26FuncNS{"subshell-cond", "if ( %F; echo insub ); then echo T; fi"},
+			c26FuncNS{"subshell-not", "! ( %F; echo insub )"},
+			c26FuncNS{"subshell-last", "( echo insub; %F )"},
+			c26FuncNS{"cs-arg", "echo \"a$(%F; echo b)\""},
+			c26FuncNS{"cs-only", "x=$(%F)"},
+			c26FuncNS{"cs-cond", "if x=$(%F; echo a); then echo \"T$x\"; fi"},
+			c26FuncNS{"export-cs", "export x=$(%F); echo \"e:$?\""},
+			c26FuncNS{"declare-cs", "declare x=$(%F); echo \"d:$?\""},
+			c26FuncNS{"readonly-cs", "readonly x=$(%F); echo \"r:$?\""},
+			c26FuncNS{"pipe-last-pf", "set -o pipefail; true | %F"},
+			c26FuncNS{"pipe-mid-pf", "set -o pipefail; true | %F | true"},
+			c26FuncNS{"pipe-not", "! %F | true"},
+			c26FuncNS{"pipe-cond", "if %F | %F; then echo T; fi"},
+			c26FuncNS{"bg", "%F & wait"},
+			c26FuncNS{"bg-wait", "%F & wait $!"},
+			c26FuncNS{"group-and", "{ %F; echo ing; } && echo T"},
+			c26FuncNS{"group-cond", "if { %F; echo ing; }; then echo T; fi"},
+			c26FuncNS{"eval-or", "eval '%F; echo ineval' || echo alt"},
+			c26FuncNS{"set+e", "set +e; %F; echo \"off:$?\"; set -e; %F; echo no"},
+			c26FuncNS{"sete-in-fn", "set +e; f() { set -e; %F; echo inf; }; f; echo no"},
+			c26FuncNS{"sete-in-sub", "set +e; ( set -e; %F; echo insub ); echo \"sub:$?\""},
+			c26FuncNS{"sete-in-cond-fn", "set +e; f() { set -e; %F; echo inf; }; if f; then echo T; fi; %F; echo no"},
+			c26FuncNS{"case-cond-fn", "f() { %F; echo inf; }; case $(f) in inf) echo m;; *) echo n;; esac"},
+			c26FuncNS{"trap-exit", "trap 'echo \"T:$?\"' EXIT; %F"},
+			c26FuncNS{"heredoc-cs", "read x <<EOF\n$(%F; echo a)\nEOF\necho \"x=$x\""},
+		)
+	}
+	return pos
+}
+
+func c26FuncErrexit(thorough bool, emit c26EmitFn) {
+	fails := []c26FuncNS{{"st3", "st 3"}}
+	if thorough {
+		fails = append(fails,
+			c26FuncNS{"false", "false"},
+			c26FuncNS{"dbr", "[[ a == b ]]"},
+			c26FuncNS{"arith", "(( 0 ))"},
+			c26FuncNS{"test", "[ a = b ]"},
+			c26FuncNS{"assign-cs", "z=$(st 3)"},
+			c26FuncNS{"let", "let 0"},
+		)
+	}
+	// %B = marker; body; marker
+	wraps := []c26FuncNS{
+		{"top", "%B"},
+		{"fn", "w() { %B; }; w; echo \"w:$?\""},
+		{"fn-cond", "w() { %B; }; if w; then echo wT; else echo wF; fi"},
+	}
+	if thorough {
+		wraps = append(wraps,
+			c26FuncNS{"fn-or", "w() { %B; }; w || echo \"walt:$?\""},
+			c26FuncNS{"subshell", "( %B ); echo \"sub:$?\""},
+			c26FuncNS{"cmdsubst", "v=$( %B ); echo \"cs:$? [$v]\""},
+			c26FuncNS{"loop", "for k in 1 2; do %B; done"},
+		)
+	}
+	quickFnCond := map[string]bool{"plain": true, "and-last": true, "group": true, "fn-plain": true, "fn-last": true, "subshell": true, "cs-assign": true, "local-then-cs": true, "pipe-last": true, "eval": true, "for-body": true, "if-body": true}
+	quickFn := map[string]bool{"plain": true, "and-last": true, "or-last": true, "fn-last": true, "subshell": true, "not": true}
+	for _, w := range wraps {
+		for _, p := range c26FuncFailPos(thorough) {
+			if !thorough && w.name == "fn-cond" && !quickFnCond[p.name] {
+				continue
+			}
+			if !thorough && w.name == "fn" && !quickFn[p.name] {
+				continue
+			}
+			for _, f := range fails {
+				if strings.Contains(p.src, "\n") && w.name != "top" {
+					continue // here-document: only as a statement list of its own
+				}
+				if p.name == "readonly-cs" && w.name == "loop" {
+					continue // the second iteration assigns a readonly variable: an error path
+				}
+				if w.name != "top" && f.name != "st3" {
+					continue // the kinds of failing command: at top level only
+				}
+				body := "echo before; " + c26FuncSub(p.src, "%F", f.src) + "; echo \"after:$?\""
+				src := "set -e\n" + c26FuncSt + c26FuncSub(w.src, "%B", body) + "\necho \"end:$?\"\n"
+				emit("fxerrexit-pos["+w.name+" "+p.name+" fail="+f.name+"]", src)
+			}
+		}
+	}
+}
+
+// ---------------------------------------------------------------- EXIT trap
+
+func c26FuncExitTrap(thorough bool, emit c26EmitFn) {
+	// %H = handler text (inside single quotes)
+	setups := []c26FuncNS{
+		{"top", "trap '%H' EXIT"},
+		{"in-fn", "t() { trap '%H' EXIT; }; t"},
+		{"replaced", "trap 'echo old' EXIT; trap '%H' EXIT"},
+		{"reset", "trap '%H' EXIT; trap - EXIT"},
+		{"ignored", "trap '%H' EXIT; trap '' EXIT"},
+		{"handler-fn", "h() { %H; }; trap h EXIT"},
+	}
+	if thorough {
+		setups = append(setups,
+			c26FuncNS{"sig-0", "trap '%H' 0"},
+			c26FuncNS{"in-group", "{ trap '%H' EXIT; }"},
+			c26FuncNS{"in-subshell-only", "( trap '%H' EXIT ); echo \"par:$?\""},
+			c26FuncNS{"in-cmdsubst-only", "x=$(trap '%H' EXIT); echo \"par:$? [$x]\""},
+			c26FuncNS{"in-eval", "eval \"trap '%H' EXIT\""},
+			c26FuncNS{"set-in-trap", "trap 'trap - EXIT; %H' EXIT"},
+			c26FuncNS{"reset-then-set", "trap 'echo old' EXIT; trap - EXIT; trap '%H' EXIT"},
+		)
+	}
+	handlers := []c26FuncNS{
+		{"echo", "echo \"T:$? v=$v\""},
+		{"fail-last", "echo \"T:$?\"; st 6"},
+		{"exit-7", "echo \"T:$?\"; exit 7"},
+		{"exit-noarg", "echo \"T:$?\"; st 6; exit"},
+		{"status-inside", "false; echo \"T:$? v=$v\"; v=t"},
+	}
+	if thorough {
+		handlers = append(handlers,
+			c26FuncNS{"exit-0", "echo \"T:$?\"; exit 0"},
+			c26FuncNS{"subshell-exit", "echo \"T:$?\"; ( exit 8 )"},
+			c26FuncNS{"errexit-in-trap", "echo \"T:$?\"; set -e; st 6; echo no-trap"},
+			c26FuncNS{"two-echo", "echo \"T1:$?\"; echo \"T2:$?\""},
+			c26FuncNS{"cmdsubst", "s=$?; y=$(echo in-trap); echo \"T:$s $y\""},
+		)
+	}
+	ends := []c26FuncNS{
+		{"fall-0", "st 0"},
+		{"fall-3", "st 3"},
+		{"exit-5", "exit 5; echo no"},
+		{"exit-noarg", "st 3; exit; echo no"},
+		{"errexit", "set -e; st 3; echo no"},
+		{"fn-return", "f() { return 3; }; f"},
+		{"fn-exit", "f() { exit 4; }; f; echo no"},
+		{"sub-exit", "( exit 4 ); echo \"s:$?\""},
+		{"sub-last", "( echo insub; exit 4 )"},
+		{"cs-exit", "x=$(echo incs; exit 4); echo \"c:$? [$x]\""},
+		{"eval-exit", "eval 'exit 5'; echo no"},
+	}
+	if thorough {
+		ends = append(ends,
+			c26FuncNS{"exit-256", "exit 256"},
+			c26FuncNS{"exit-in-loop", "for i in 1 2; do echo $i; exit 5; done"},
+			c26FuncNS{"exit-in-cond", "if exit 5; then echo no; fi"},
+			c26FuncNS{"exit-in-and", "st 0 && exit 5; echo no"},
+			c26FuncNS{"exit-in-group", "{ exit 5; echo no; }; echo no"},
+			c26FuncNS{"exit-in-pipe-first", "exit 5 | true; echo \"p:$?\""},
+			c26FuncNS{"exit-in-pipe-last", "true | exit 5; echo \"p:$?\""},
+			c26FuncNS{"exit-in-bg", "exit 5 & wait $!; echo \"b:$?\""},
+			c26FuncNS{"errexit-in-fn", "set -e; f() { st 3; echo no; }; f; echo no"},
+			c26FuncNS{"errexit-in-sub", "set -e; ( st 3; echo no ); echo no"},
+			c26FuncNS{"nounset", "set -u; echo \"$nope\"; echo no"},
+			c26FuncNS{"cs-last", "x=$(exit 4)"},
+			c26FuncNS{"fn-in-sub", "f() { exit 4; }; ( f ); echo \"s:$?\""},
+			c26FuncNS{"sub-own-trap", "( trap 'echo \"S:$?\"' EXIT; exit 4 ); echo \"s:$?\""},
+			c26FuncNS{"sub-reset-trap", "( trap - EXIT; exit 4 ); echo \"s:$?\""},
+			c26FuncNS{"sub-fall", "( st 4 ); echo \"s:$?\""},
+			c26FuncNS{"exit-var", "s=9; exit $s"},
+			c26FuncNS{"exit-status", "st 3; exit $?"},
+		)
+	}
+	gen := func(s, h, e c26FuncNS) {
+		src := c26FuncSt + "v=1\n" + c26FuncSub(s.src, "%H", h.src) + "\nv=2\necho body\n" + e.src + "\n"
+		emit("fxexittrap-end[set="+s.name+" handler="+h.name+" end="+e.name+"]", src)
+	}
+	if thorough {
+		for _, s := range setups {
+			for _, h := range handlers {
+				if s.name != "top" && h.name != "echo" {
+					continue
+				}
+				for _, e := range ends {
+					gen(s, h, e)
+				}
+			}
+		}
+		return
+	}
+	for _, e := range ends {
+		gen(setups[0], handlers[0], e)
+	}
+	q3 := []c26FuncNS{ends[1], ends[2], ends[4]}
+	for _, s := range setups[1:] {
+		for _, e := range q3 {
+			gen(s, handlers[0], e)
+		}
+	}
+	for _, h := range handlers[1:] {
+		for _, e := range q3 {
+			gen(setups[0], h, e)
+		}
+	}
+}
+
+// ---------------------------------------------------------------- ERR trap
+
+func c26FuncErrTrap(thorough bool, emit c26EmitFn) {
+	// positions without any function or subshell: the failing command is `false`
+	flat := []c26FuncNS{
+		{"plain", "%F"},
+		{"and-left", "%F && echo no-and"},
+		{"or-left", "%F || echo alt"},
+		{"and-last", "true && %F"},
+		{"or-last", "%F || %F"},
+		{"if-cond", "if %F; then echo T; fi"},
+		{"if-body", "if true; then %F; fi"},
+		{"while-cond", "while %F; do echo no-while; done"},
+		{"until-cond", "until %F; do echo body; break; done"},
+		{"not", "! %F"},
+		{"not-true", "! true"},
+		{"group", "{ %F; echo ing; }"},
+		{"group-last", "{ echo ing; %F; }"},
+		{"group-or", "{ %F; echo ing; } || echo alt"},
+		{"for-body", "for i in 1 2; do %F; echo i$i; done"},
+		{"case-body", "case a in a) %F; echo inc;; esac"},
+		{"cs-assign", "x=$(%F; echo a); echo \"x=$x\""},
+		{"cs-assign-last", "x=$(echo a; %F); echo \"x=$x\""},
+		{"pipe-first", "%F | true"},
+		{"pipe-last", "true | %F"},
+		{"pipe-first-pf", "set -o pipefail; %F | true"},
+		{"eval", "eval '%F; echo ineval'"},
+		{"twice", "%F; %F"},
+	}
+	// positions with functions / subshells
+	deep := []c26FuncNS{
+		{"fn-plain", "f() { %F; echo inf; }; f"},
+		{"fn-last", "f() { echo inf; %F; }; f"},
+		{"fn-cond", "f() { %F; echo inf; }; if f; then echo T; fi"},
+		{"subshell", "( %F; echo insub )"},
+		{"subshell-last", "( echo insub; %F )"},
+		{"fn-return", "f() { return 3; }; f"},
+		{"trap-in-fn", "f() { trap 'echo \"ERR-F:$?\"' ERR; }; f; %F"},
+		{"fn-or", "f() { %F; echo inf; }; f || echo alt"},
+	}
+	opts := []c26FuncNS{
+		{"none", ""},
+		{"e", "set -e\n"},
+	}
+	// (set -E / set -o errtrace is rejected by the interpreter as an invalid
+	// option: an unsupported feature, shown once by fxerrtrap-errtrace)
+	deepOpts := []c26FuncNS{
+		{"none", ""},
+	}
+	if thorough {
+		deepOpts = append(deepOpts, c26FuncNS{"e", "set -e\n"})
+		emit("fxerrtrap-errtrace[set -E]", "set -E; echo \"E:$?\"; set -o errtrace; echo \"o:$?\"\n")
+	}
+	traps := []c26FuncNS{
+		{"echo", "trap 'echo \"ERR:$?\"' ERR"},
+	}
+	if thorough {
+		traps = append(traps,
+			c26FuncNS{"reset", "trap 'echo \"ERR:$?\"' ERR; trap - ERR"},
+			c26FuncNS{"ignored", "trap '' ERR"},
+			c26FuncNS{"replaced", "trap 'echo old' ERR; trap 'echo \"ERR:$?\"' ERR"},
+			c26FuncNS{"setvar", "trap 'n=x$n; echo \"ERR:$? n=$n\"' ERR"},
+			c26FuncNS{"failing-handler", "trap 'echo \"ERR:$?\"; false' ERR"},
+			c26FuncNS{"with-exit-trap", "trap 'echo \"X:$?\"' EXIT; trap 'echo \"ERR:$?\"' ERR"},
+			c26FuncNS{"exit-in-handler", "trap 'echo \"ERR:$?\"; exit 9' ERR"},
+		)
+	}
+	gen := func(o, t, p c26FuncNS, fail string) {
+		src := o.src + "n=0\n" + t.src + "\necho before\n" + c26FuncSub(p.src, "%F", fail) + "\necho \"after:$? n=$n\"\n"
+		emit("fxerrtrap-pos[opt="+o.name+" trap="+t.name+" "+p.name+"]", src)
+	}
+	for _, t := range traps {
+		for _, o := range opts {
+			for _, p := range flat {
+				if !thorough && o.name == "e" {
+					switch p.name {
+					case "plain", "and-last", "or-left", "if-body", "group", "cs-assign", "pipe-last", "not", "twice":
+					default:
+						continue
+					}
+				}
+				gen(o, t, p, "false")
+			}
+		}
+		for _, o := range deepOpts {
+			for _, p := range deep {
+				if !thorough && (p.name == "subshell-last" || p.name == "fn-or" || p.name == "fn-return") {
+					continue
+				}
+				gen(o, t, p, "false")
+			}
+		}
+	}
 }
